@@ -101,23 +101,30 @@ func H_C02_arity() {
 	}
 	expr += ")"
 	vrtNote("template:" + expr)
-	_, ec := refParse(expr)
 	_, cerr := Compile(expr)
 	doc := vrtDoc("d", 1, uJSON, uJSON)
 	_, serr := Search(expr, doc)
-	switch ec {
-	case ecNone:
+	// faults present in the call (multi-fault expressions may report any of them)
+	call := &rnode{kind: rnCall, str: f}
+	for i := 0; i < n; i++ {
+		if i == refPos {
+			call.kids = append(call.kids, &rnode{kind: rnExpref})
+		} else {
+			call.kids = append(call.kids, &rnode{kind: rnField, str: "a"})
+		}
+	}
+	arity, refs := refCallFaults(call)
+	if arity == ecNone && refs == ecNone {
 		vrtAssert(cerr == nil, "well-formed call must compile")
-	case ecType:
-		// an expression reference where none is accepted (or a missing one): the
-		// implementation may report it as invalid-type or as a syntax error
-		vrtAssert(cerr != nil, "misplaced expression reference must be rejected statically")
+	} else {
+		vrtAssert(cerr != nil, "statically invalid call must be rejected by Compile")
 		if cerr != nil {
 			c := ecOfError(cerr)
-			vrtAssert(c == ecType || c == ecSyntax, "misplaced expression reference: invalid-type (or syntax)")
+			// a misplaced expression reference is invalid-type; the implementation
+			// reports some of them as syntax errors, which is accepted here
+			ok := (arity != ecNone && c == arity) || (refs != ecNone && (c == ecType || c == ecSyntax))
+			vrtAssert(ok, "static fault class is none of the faults present")
 		}
-	default:
-		vrtAssert(cerr != nil && ecOfError(cerr) == ec, "static fault class differs: want "+ecNames[ec])
 	}
 	if cerr != nil {
 		vrtAssert(serr != nil && ecOfError(serr) == ecOfError(cerr), "Search reports the static fault like Compile, for every document")
